@@ -104,6 +104,14 @@ impl MT210 {
             }
         }
 
+        // The repetitive sequence is mandatory: at least one occurrence
+        // (left-over content is reported by the completeness check that follows)
+        if transactions.is_empty() && parser.is_complete() {
+            return Err(crate::errors::ParseError::InvalidFormat {
+                message: "MT210: At least one sequence (field 32B) is required".to_string(),
+            });
+        }
+
         crate::parser::utils::verify_parser_complete(&parser)?;
 
         Ok(MT210 {
